@@ -103,7 +103,10 @@ def generate(rng, run, tier):
             # nothing resolved or generated for the first scope may leak into the second
             'two_scopes': rng.random() < 0.5,
             # (drawn last) the kind of the annotated callable
-            'ckind': rng.choice(['func', 'func', 'func', 'gen', 'agen', 'coro'])}
+            'ckind': rng.choice(['func', 'func', 'func', 'gen', 'agen', 'coro']),
+            # (drawn last) the decorated class derives from a user class whose *attributes* are named like the module globals the
+            # annotations refer to (Python never consults a base class's namespace for an annotation)
+            'base_shadow': rng.random() < 0.3}
 
 
 def _partial(text):
@@ -133,18 +136,21 @@ def _source(case):
     else:
         rann = repr(fmt % case['text'])
     p = case['placement']
+    shadow = bool(case.get('base_shadow'))
+    basedef = ['class ShadowBase:', '    Early = int', '    Later = int', '    Local = int', '    Outer = int'] if shadow else []
+    bases = '(ShadowBase)' if shadow else ''
     if p == 'module':
         body = ['@beartype', '%s f(a: %s) -> %s:' % (kw, ann, rann), '    %s a' % stmt]
     elif p == 'method':
-        body = ['@beartype', 'class Outer:', '    Tag = Early', '    %s m(self, a: %s) -> %s:' % (kw, ann, rann), '        %s a' % stmt,
+        body = basedef + ['@beartype', 'class Outer%s:' % bases, '    Tag = Early', '    %s m(self, a: %s) -> %s:' % (kw, ann, rann), '        %s a' % stmt,
                 'f = Outer().m']
     elif p == 'nested_method':
-        body = ['@beartype', 'class Outer:', '    Key = int', '    class Inner:', '        Tag = Early', '        Key = Early',
+        body = basedef + ['@beartype', 'class Outer%s:' % bases, '    Key = int', '    class Inner%s:' % bases, '        Tag = Early', '        Key = Early',
                 '        %s m(self, a: %s) -> %s:' % (kw, ann, rann),
                 '            %s a' % stmt, 'f = Outer.Inner().m', 'Inner = None']
     elif p == 'closure_method':
         # a class decorated inside a function; its method names a local of that function defined after the class
-        body = ['def factory():', '    @beartype', '    class Holder:', '        %s m(self, a: %s) -> %s:' % (kw, ann, rann),
+        body = basedef + ['def factory():', '    @beartype', '    class Holder%s:' % bases, '        %s m(self, a: %s) -> %s:' % (kw, ann, rann),
                 '            %s a' % stmt, '    ' + local, '    return Holder().m, Local', 'f, Local_ = factory()']
     else:
         body = ['def factory():', '    @beartype', '    %s clo(a: %s) -> %s:' % (kw, ann, rann), '        %s a' % stmt,
